@@ -34,8 +34,11 @@ class TState(object):
 
 
 class Sched(object):
-    def __init__(self, choose, max_steps=4000, on_step=None):
-        """choose(sched, enabled: list of TState) -> TState ; on_step(sched, tstate, op) after each step"""
+    def __init__(self, choose, max_steps=4000, on_step=None, line_file=None):
+        """choose(sched, enabled: list of TState) -> TState ; on_step(sched, tstate, op) after each step.
+        line_file: when given, every source line of that file executed by a managed thread is a scheduling
+        point too (sys.settrace), which reaches the interleavings between unsynchronised attribute accesses."""
+        self.line_file = line_file
         self.choose = choose
         self.max_steps = max_steps
         self.on_step = on_step
@@ -84,7 +87,13 @@ class Sched(object):
             self._local.ts = ts
             try:
                 self.announce("begin", ts)
-                fn()
+                if self.line_file:
+                    sys.settrace(self._global_trace)
+                try:
+                    fn()
+                finally:
+                    if self.line_file:
+                        sys.settrace(None)
                 self.announce("end", ts)
             except SchedAbort:
                 pass
@@ -109,6 +118,17 @@ class Sched(object):
             while ts.pending == ("spawning", ts) and not ts.done:
                 self.mu.wait(0.001)
         return ts
+
+    # ---- line-level pre-emption ------------------------------------------------------------------
+    def _global_trace(self, frame, event, arg):
+        if event == "call" and frame.f_code.co_filename == self.line_file:
+            return self._local_trace
+        return None
+
+    def _local_trace(self, frame, event, arg):
+        if event == "line" and not self.aborting:
+            self.announce("line", frame.f_lineno)
+        return self._local_trace
 
     # ---- enabledness ----------------------------------------------------------------------------
     @staticmethod
@@ -393,8 +413,9 @@ class Harness(object):
         if mod.threading is not shim:
             raise RuntimeError("lazy_io did not pick up the shim threading module")
 
-    def new_run(self, choose, max_steps=4000, on_step=None):
-        s = Sched(choose, max_steps=max_steps, on_step=on_step)
+    def new_run(self, choose, max_steps=4000, on_step=None, fine=False):
+        s = Sched(choose, max_steps=max_steps, on_step=on_step,
+                  line_file=self.mod.__file__ if fine else None)
         self.sched_ref[0] = s
         b = Backend(self.sched_ref)
         self.backend_ref[0] = b
